@@ -187,14 +187,19 @@ func (its *list) Get(pos int) (interface{}, errors.OrdaError) {
 	if err := its.snapshot().validateGetPosition(pos); err != nil {
 		return nil, err
 	}
-	return its.snapshot().findValue(pos), nil
+	// the caller gets a value of its own: what it does to an object or array it was given is not done to the replica
+	return types.NormalizeValue(its.snapshot().findValue(pos)), nil
 }
 
 func (its *list) GetMany(pos int, numOfNodes int) ([]interface{}, errors.OrdaError) {
 	if err := its.snapshot().validateGetRange(pos, numOfNodes); err != nil {
 		return nil, err
 	}
-	return its.snapshot().findManyValues(pos, numOfNodes), nil
+	values := its.snapshot().findManyValues(pos, numOfNodes)
+	for i, v := range values {
+		values[i] = types.NormalizeValue(v)
+	}
+	return values, nil
 }
 
 // ////////////////////////////////////////////////////////////////
@@ -497,7 +502,7 @@ func (its *listSnapshot) ToJSON() interface{} {
 	var l = make([]interface{}, 0)
 	n := its.head.getNextLive()
 	for n != nil {
-		l = append(l, n.getValue())
+		l = append(l, types.NormalizeValue(n.getValue())) // a copy: the view does not share objects and arrays with the replica
 		n = n.getNextLive()
 	}
 	return l
